@@ -979,7 +979,7 @@ class Session(object):
                  'losslessly to Fractions), every one of the 18 zones, customs made from shipped '
                  'archetypes (incl. the era family of new custom types, one member per zone), vs Lean '
                  'generateBEM on the same library; exact as above; the oracle also demands that Sch[k] is '
-                 'the schedule set of BEM[k] (library cells and customs carry one marker in both halves)',
+                 'the schedule set of BEM[k] (library cells and customs carry one marker in both halves); seventh round (harness/x2_util.derived_names): stocks holding, next to realisable rows, an UNKNOWN type made of the text of a realisable one with the same era - suffix (office / largeoffice), prefix, infix, concatenation, doubled letter -, next to custom types too, and a custom type asked for an era it was not supplied for: all must be refused',
             nontrivial=lambda line, impl: line.startswith('bem') and impl.startswith('ok'),
             classify=lambda line, impl: tags.get(line, 'lib').split(':')[-1])
         chk.assumptions.append('the shipped library satisfies RefLib/SlotOK/KeysUnique/ShapeOK at all '
@@ -1017,7 +1017,7 @@ class Session(object):
                  'doubles, vs Lean generateBEM: (type, era, object identity via bldtype/builtera/'
                  'zonetype, fraction, six carried attributes) of BEM in order, exact values of the '
                  'doubles; totals are doubles and judged by the oracle (same operations, same bits); '
-                 'bldheight is assigned too (16 m, or a low district of 2 .. 6 m); era family as in tie A',
+                 'bldheight is assigned too (16 m, or a low district of 2 .. 6 m); era family as in tie A; seventh round (harness/x2_util.derived_names): stocks holding, next to realisable rows, an UNKNOWN type made of the text of a realisable one with the same era - suffix (office / largeoffice), prefix, infix, concatenation, doubled letter -, next to custom types too, and a custom type asked for an era it was not supplied for: all must be refused',
             nontrivial=lambda line, impl: line.startswith('sel') and impl.startswith('ok'),
             classify=lambda line, impl: tags.get(line, 'lib'))
 
@@ -1783,6 +1783,49 @@ def circumstance_ties(chk, plain, early=None):
                mismatches=nbad, branches=br)
 
 
+def derived_unknown_cases(rng, rl, count, dyadic=False):
+    """Seventh round (family harness/x2_util.derived_names): stocks that hold, next to one or two realisable rows, a row whose
+    type is UNKNOWN but made of the text of a realisable one - a suffix ('office' next to 'largeoffice'), a prefix, an infix,
+    a concatenation, the name with a letter doubled - with the SAME era as the row it derives from; also next to a custom
+    type ('lab' next to a custom 'biolab') and a custom type asked for an era it was not supplied for. All unrealisable:
+    the refusal is demanded (oracle_c07), whatever text the unknown name shares with the keys that were found."""
+    import x2_util as X
+    out = []
+    v = (F(1, 4), F(1, 2), F(1, 8), F(3, 8), F(0), F(3))
+    for k in range(count):
+        zone = rng.choice(ZONES18)
+        cs = gen_real_case(rng, rl, zone, dyadic=dyadic)
+        kind = ('doe', 'doe', 'doe', 'custom', 'custom-era')[k % 5]
+        customs = []
+        if kind != 'doe':
+            e0 = rng.randrange(3)
+            customs = [(rng.choice(['biolab', 'datacentre', 'rowhouse']), e0, 1000, v)]
+        table, flags = expected_column(rl.spec, zone, customs)
+        if flags & SKIP_FLAGS or not table:
+            continue
+        if kind == 'doe':
+            base = rng.sample(sorted(table), min(len(table), rng.choice([1, 2])))
+        else:
+            base = [(customs[0][0], customs[0][1])] + rng.sample(sorted(table), 1)
+        taken = set(t for t, _ in table) | set(REF_BLDTYPE)
+        rows = [(t, era_text(rng, ERAS[e])) for t, e in base]
+        if kind == 'custom-era':
+            t, e = base[0]
+            rows.append((t, era_text(rng, ERAS[(e + 1 + rng.randrange(2)) % 3])))
+            how = 'custom type %s asked for an era it was not supplied for' % t
+        else:
+            name, how = X.derived_names([t for t, _ in base], taken, rng, 6)[k // 5 % 6 if kind == 'doe' else 0]
+            src = next((b for b in base if b[0] in how), base[0])
+            rows.append((name, era_text(rng, ERAS[src[1]])))
+        if rng.random() < 0.5:
+            rows.reverse()
+        fr, fk = gen_fracs(rng, len(rows), dyadic)
+        cs.update(customs=customs, bld=[(t, e, f) for (t, e), f in zip(rows, fr)], table=table, flags=flags,
+                  kinds={'derived-unknown:' + how.split(' of ')[0].split(' ')[0], 'frac-' + fk})
+        out.append(cs)
+    return out
+
+
 def build_cases(chk, rl, focus):
     rng = chk.rng
     quick = chk.tier == 'quick'
@@ -1820,6 +1863,9 @@ def build_cases(chk, rl, focus):
             real += era_family(rng, rl.spec, z, 1 if quick else 8, real=True)
         for z in rng.sample(ZONES18, 10) if quick else ZONES18 * 3:
             gen += era_family(rng, rl.spec, z, 1, dyadic=True, real=True)
+    if focus == 'C07':
+        real += derived_unknown_cases(rng, rl, 15 if quick else 150)
+        gen += derived_unknown_cases(rng, rl, 10 if quick else 60, dyadic=True)
     return synth, real, gen
 
 
